@@ -20,7 +20,7 @@ ID = 'C18'
 LEVEL = 'model_checking'
 RULE = ('explicit enumeration of ALL histories of length <= depth over 15 (deck, options) items chosen to collide (quick tier: '
         'length 3 over the nine items built to collide in process state, length 2 for pairs involving the six others; '
-        'only maximal histories are run since every step is compared) '
+        'thorough tier: length 4 over the nine, length 3 over all; only maximal histories are run since every step is compared) '
         '(identical cell / surface numbers with different geometry, universe and lattice decks, a deck that '
         'fails midway, the same deck under other options); each history runs in one fresh interpreter and every '
         'step is compared byte-for-byte (header removed) with the golden output of the item from a fresh '
@@ -412,7 +412,10 @@ def custom_main(tier, seed, runner):
             histories = [h for h in itertools.product(core, repeat=depth)]
             histories += [h for h in itertools.product(NAMES, repeat=2) if not (h[0] in core and h[1] in core)]
         else:
-            histories = [h for h in itertools.product(NAMES, repeat=depth)]
+            # thorough tier: length 4 over the nine core items, length 3 over all items
+            core = [n for n in NAMES if n <= 'i']
+            histories = [h for h in itertools.product(core, repeat=depth)]
+            histories += [h for h in itertools.product(NAMES, repeat=depth - 1) if not all(x in core for x in h)]
         fps = set()
         closed = True
         changed_paths = set()
